@@ -158,7 +158,7 @@ structure ConnOut where
 /-- one camera connection: how it ends, the camera it announced, the finished files it leaves -/
 def runConn (f : List String) (bytes : Array Nat) (reqOffsets : List Nat) (wins : List (Nat × Bool) := []) : ConnOut :=
   match Socket.readHeader bytes.toList with
-  | none => { lines := ["conn header-error true", "header none"], mainFiles := [], constFiles := [],
+  | none => { lines := ["conn header-error true", "badreports 0", "header none"], mainFiles := [], constFiles := [],
               unfinishedMain := 0, unfinishedConst := 0 }
   | some (text, rest) =>
     let h := hdrOf text
@@ -178,7 +178,7 @@ def runConn (f : List String) (bytes : Array Nat) (reqOffsets : List Nat) (wins 
     let conn := match ending with | .eofAtBoundary => "conn eof" | .truncated => "conn truncated"
     let hdrLine := s!"header resx={h.resx} resy={h.resy} fps={h.fps} framesize={h.fsize} brand={hexStr h.brand} " ++
       s!"model={hexStr h.model} serial={h.serial} firmware={hexStr h.firmware}"
-    { lines := [conn, hdrLine],
+    { lines := [conn, s!"badreports {p.badFrames}", hdrLine],
       mainFiles := mainDone.map fun (i, fl) => fun lab k => fileLines f h (lab.headD "main") k fl (bgs.getD i #[]) frozen c.lepton,
       constFiles := constDone.map fun (i, fl) => fun lab k => fileLines f h (lab.headD "const") k fl (bgs.getD i #[]) frozen c.lepton,
       unfinishedMain := 2 * testOpen, unfinishedConst := 2 * constOpen }
@@ -229,6 +229,7 @@ def classify (exp got : List String) : String :=
   match exp, got with
   | "conn" :: _, _ => "prop=C14 reason=connection-end-differs"
   | "header" :: _, _ => "prop=C14 reason=camera-header-differs"
+  | "badreports" :: _, _ => "prop=C13 reason=number-of-bad-frames-reported-to-the-operator-differs"
   | "dir" :: _, _ => "prop=C11 reason=set-of-finished-files-differs"
   | "file" :: _, _ => "prop=C11 reason=file-header-differs"
   | "fr" :: _, _ => "prop=C11 reason=frame-content-or-telemetry-differs"
@@ -279,7 +280,13 @@ def monStep' (m : MSt) (bl : Block) : MSt × List String :=
                       ((e'.zip g).filter fun (a, b) => a != b).all fun (a, _) => a.startsWith "motion=")
                     || (e'.headD "" == "fr" && e'.contains "bg=1")
         then ["prop=C15 reason=threshold-or-background-stored-with-the-recording-is-not-the-one-in-force-at-its-trigger"] else []
-      (m', c :: thr ++ c04 ++ c17 ++ c15)
+      -- C10: temporary files left in the output directory when the connection has ended (the model knows which: an
+      -- unfinished test / continuous recording stays until the next start-up, a motion recording is discarded)
+      let unf (l : List String) := l.filter (·.startsWith "unfinished=")
+      let c10 := if e'.headD "" == "dir" && g.headD "" == "dir" && unf e' != unf g &&
+                    e'.filter (·.startsWith "finished=") == g.filter (·.startsWith "finished=")
+        then ["prop=C10 reason=temporary-files-left-behind-differ-after-the-connection-ended"] else []
+      (m', c :: thr ++ c04 ++ c17 ++ c15 ++ c10)
   | ["n"] =>
     let exp := ((runConn m.st.f m.st.bytes m.st.reqOffsets m.st.wins).lines).map fields
     if exp == bl.outs then ({ m with st := st' }, [])
